@@ -237,6 +237,17 @@ func c06RunQuery(db string, q c06Query) string {
 	return c06Render(res, q)
 }
 
+// c06Listing runs the real ReadMetadata over the queried range: `fine` (an answer or an error) or `panic`
+func c06Listing(db string, first, last int64) (res string) {
+	defer func() {
+		if r := recover(); r != nil {
+			res = "panic"
+		}
+	}()
+	_ = listSummary(db, first, last)
+	return "fine"
+}
+
 func c06ErrClass(err error) string {
 	s := err.Error()
 	switch {
@@ -301,7 +312,7 @@ func c06Render(res *results.Result, q c06Query) string {
 }
 
 func init() {
-	// `__child c06query`: serves queries read from stdin, one per line: db attrs time cond first last
+	// `__child c06query`: serves queries read from stdin, one per line: db attrs time cond first last listing
 	children["c06query"] = func(_ []string) int {
 		// a hard limit on the address space makes "the reader asks for more memory than there is"
 		// a deterministic outcome (fatal error: out of memory) instead of a question of host and load
@@ -310,13 +321,19 @@ func init() {
 		sc.Buffer(make([]byte, 1<<16), 1<<20)
 		for sc.Scan() {
 			a := strings.Fields(sc.Text())
-			if len(a) != 6 {
+			if len(a) != 7 {
 				fmt.Println("C06RESULT err:bad-request")
 				continue
 			}
 			first, _ := strconv.ParseInt(a[4], 10, 64)
 			last, _ := strconv.ParseInt(a[5], 10, 64)
 			out := c06RunQuery(a[0], c06Query{Attrs: a[1], Time: a[2] == "1", Cond: a[3], First: first, Last: last})
+			// the interface listing (ReadMetadata) reads the same damaged files: it may fail, it must not crash
+			if a[6] == "1" {
+				out += " list=" + c06Listing(a[0], first, last)
+			} else {
+				out += " list=fine"
+			}
 			fmt.Println("C06RESULT " + out)
 		}
 		return 0
@@ -381,7 +398,7 @@ func (s *c06Server) kill() {
 }
 
 // c06Child runs the query in a reader process and classifies how that went
-func c06Child(db string, q c06Query) string {
+func c06Child(db string, q c06Query, listing bool) string {
 	var s *c06Server
 	select {
 	case s = <-c06Idle:
@@ -394,7 +411,7 @@ func c06Child(db string, q c06Query) string {
 	s.mu.Lock()
 	s.stderr.Reset()
 	s.mu.Unlock()
-	req := strings.Join([]string{db, q.Attrs, b2s(q.Time), q.Cond, strconv.FormatInt(q.First, 10), strconv.FormatInt(q.Last, 10)}, " ")
+	req := strings.Join([]string{db, q.Attrs, b2s(q.Time), q.Cond, strconv.FormatInt(q.First, 10), strconv.FormatInt(q.Last, 10), b2s(listing)}, " ")
 	type answer struct {
 		line string
 		err  error
@@ -691,7 +708,9 @@ func c06Run(f []string) string {
 	if err := c06Materialise(db, c.Days); err != nil {
 		return "err:materialise-" + esc(err.Error())
 	}
-	return c06Child(db, c.Q)
+	// f[7] = big=<0|1>: a descriptor announces 2^30 bytes or more (the recorded allocation finding); the
+	// listing reads counter columns of partial days and would hit the same allocation: not run then
+	return c06Child(db, c.Q, f[7] != "big=1")
 }
 
 // ---------------------------------------------------------------------------------------------
